@@ -505,11 +505,11 @@ def run(rep):
     runner = vlib.build_runner("entry")
     exe = vlib.compile_harness("entry", "asan", private=True)
     r = vlib.rng(rep.seed, "C14")
-    n = 600 if rep.tier == "quick" else 12000
+    n = 600 if rep.tier == "quick" else 40000
     cases = fixed_cases() + [gen_case(r) for _ in range(n)]
     corpus = vlib.load_corpus("C14")
     st = vlib.correspond(rep, "entry", runner, exe, corpus + cases, oracle=oracle)
-    ninv, _ = run_invalid(rep, exe, vlib.rng(rep.seed, "C14-invalid"), 100 if rep.tier == "quick" else 2000)
+    ninv, _ = run_invalid(rep, exe, vlib.rng(rep.seed, "C14-invalid"), 100 if rep.tier == "quick" else 6000)
     nsteps = sum(len(vparse(c)) for c in cases)
     rep.coverage.update(
         evaluations=len(cases) + len(corpus) + ninv,
